@@ -98,7 +98,7 @@ class EvalLab:
     def context_map(self, labels):
         return RMap('HashMap', [[mkstr(l), self.sets[l]] for l in labels])
     def new_ctx(self, prefix=()):
-        ctx = PathCtx(prefix, self.timeout_ms)
+        ctx = PathCtx(prefix, self.timeout_ms, fresh=True)
         for p in self.pre: ctx.assume(p)
         return ctx
     def call_entry(self, entry, texts, labels=(), graph=None):
@@ -130,7 +130,7 @@ class EvalLab:
             except Infeasible: work.extend(ctx.pending); continue
             work.extend(ctx.pending)
             # a path whose condition became unsatisfiable through assumptions is dropped
-            if ctx.solver.check() != z3.sat: continue
+            if not ctx.feasible(): continue
             out.append((o, v, ctx)); self.chk.paths += 1; self.chk.queries += ctx.queries
             if len(out) > max_paths: raise Unsupported('path budget exhausted')
         self.chk.note_functions(self.I.executed); self.chk.models |= self.I.models_used
